@@ -239,6 +239,24 @@ TDamage ==
           /\ \A i \in 1..Len(e.scan) : Ident(e.scan[i]) \in OrigOf(e.file))
   /\ l' = l + 1 /\ UNCHANGED <<n, st, model, batch, rec, maxlim, mg, lastact, hist, orig, its, nops>>
 
+\* Live damage: a file of the *open* database was damaged (cut, bytes overwritten, one bit flipped) behind the
+\* engine's back, then keys were read (E.gets, in the order performed: [k, v, err]) and Fold was run; afterwards
+\* the driver restored the file. The index is in memory, so every Get goes to the position of the live record:
+\* it returns the value written there, or an error - never another value, never not-found, never a panic.
+TLDamage ==
+  /\ Is("ldamage") /\ st = "open"
+  /\ LET e == E
+         okErr(x) == x \notin {"panic", "stuck", "ok", "notfound"}
+         getOK(g) == \/ (g.err = "ok" /\ g.v = model[g.k] /\ model[g.k] # Nil)
+                     \/ (g.err = "notfound" /\ model[g.k] = Nil)
+                     \/ (g.v = -2 /\ okErr(g.err))
+     IN Must("ldamage",
+          /\ \A i \in 1..Len(e.gets) : getOK(e.gets[i])
+          /\ e.folderr \notin {"panic", "stuck"}
+          /\ \A i \in 1..Len(e.fk) : e.fk[i] \in K /\ e.fv[i] = model[e.fk[i]]
+          /\ (e.folderr = "ok" => e.fk = LiveSeq))
+  /\ l' = l + 1 /\ UNCHANGED <<n, st, model, batch, rec, maxlim, mg, lastact, hist, orig, its, nops>>
+
 (* ---- C10: iterators ------------------------------------------------------------ *)
 \* The reference iterator (Iter.tla): the snapshot is the model at creation; the keys it yields are the live
 \* keys with the prefix (E.match: the ranks that have it), ascending or descending; rc is the cursor.
@@ -285,7 +303,7 @@ TNote == /\ Is("note")
          /\ Must(E.check, E.ok)
          /\ l' = l + 1 /\ UNCHANGED <<n, st, model, batch, rec, maxlim, mg, lastact, hist, orig, its, nops>>
 
-Next == TReset \/ TOp \/ TDump \/ TBDump \/ THint \/ THintCmp \/ TDBase \/ TDamage \/ TINew \/ TICall \/ TIClose \/ TNote
+Next == TReset \/ TOp \/ TDump \/ TBDump \/ THint \/ THintCmp \/ TDBase \/ TDamage \/ TLDamage \/ TINew \/ TICall \/ TIClose \/ TNote
 Spec == Init /\ [][Next]_vars
 
 (* ---- acceptance: the whole file was consumed --------------------------- *)
